@@ -7,14 +7,34 @@ HERE = os.path.dirname(os.path.dirname(os.path.abspath(__file__)))
 sys.path.insert(0, HERE); sys.path.insert(0, os.path.join(HERE, 'tools'))
 import seedcheck
 
+import subprocess
+from concurrent.futures import ThreadPoolExecutor
+only = [a for a in sys.argv[1:] if not a.startswith('--')]
+
+
+def one(patch):
+    r = subprocess.run([sys.executable, os.path.join(HERE, 'tools', 'seedcheck.py'),
+                        patch, '--json'], stdout=subprocess.PIPE,
+                       stderr=subprocess.STDOUT, text=True)
+    for line in r.stdout.splitlines():
+        if line.startswith('JSON:'):
+            return {p: (st, [tuple(i) for i in items])
+                    for p, (st, items) in json.loads(line[5:]).items()}
+    raise SystemExit('seedcheck failed for %s: %s' % (patch, r.stdout[-400:]))
+
+
+dirs = [d for d in sorted(os.listdir(os.path.join(HERE, 'seeded')))
+        if os.path.exists(os.path.join(HERE, 'seeded', d, 'patch.diff'))
+        and (not only or any(d.startswith(o) for o in only))]
+with ThreadPoolExecutor(int(os.environ.get('JOBS', '16'))) as ex:
+    results = dict(zip(dirs, ex.map(
+        one, [os.path.join(HERE, 'seeded', d, 'patch.diff') for d in dirs])))
 rows = []
-for d in sorted(os.listdir(os.path.join(HERE, 'seeded'))):
+for d in dirs:
     sd = os.path.join(HERE, 'seeded', d)
     patch = os.path.join(sd, 'patch.diff')
-    if not os.path.exists(patch):
-        continue
     pid = d.split('-')[0]
-    res = seedcheck.run(patch)
+    res = results[d]
     fired = {p: (st, items) for p, (st, items) in res.items() if st != 'ok'}
     own = fired.get(pid)
     rules = sorted({r for p, (st, items) in fired.items() for r, l, m in items
@@ -32,7 +52,6 @@ for d in sorted(os.listdir(os.path.join(HERE, 'seeded'))):
     rows.append((d, kind, 'VIOLATION' if own and own[0] == 'VIOLATION' else (own[0] if own else 'silent'),
                  ', '.join('%s' % p for p in sorted(fired) if p != pid and fired[p][0] == 'VIOLATION'),
                  ', '.join(rules)))
-seedcheck.prepare(None)
 out = ['| change | kind | own check | other checks firing | rules |', '|---|---|---|---|---|']
 for r in rows:
     out.append('| %s | %s | %s | %s | %s |' % r)
@@ -48,7 +67,7 @@ text = summary + '\n\n' + '\n'.join(out) + '\n'
 dp = os.path.join(HERE, 'DESIGN.md')
 s = open(dp).read()
 a, b = '<!-- SEED-MATRIX-BEGIN -->', '<!-- SEED-MATRIX-END -->'
-if a in s:
+if a in s and not only:
     s = s[:s.index(a) + len(a)] + '\n' + text + s[s.index(b):]
     open(dp, 'w').write(s)
 print(summary)
